@@ -125,6 +125,25 @@ pub fn gen_word(t: &mut Tape, prof: WordProfile) -> GWord {
     GWord { sylls }
 }
 
+/// Adds to a word list (one case in four) a pair of words that are the same word in two notations — plain IPA and the Americanist
+/// letters `ł ñ ¢ ƛ λ`, which asca writes back the way they were typed — and (one case in six) an exact repeat of a word:
+/// what a per-call or per-process cache keyed on the parsed word would confuse.
+pub fn add_twin_words(t: &mut Tape, words: &mut Vec<String>) {
+    if words.is_empty() { return }
+    if t.chance(1, 4) {
+        let (ipa, ame) = [("ɬ", "ł"), ("ɲ", "ñ"), ("t͡s", "¢"), ("t͡ɬ", "ƛ"), ("d͡ɮ", "λ")][t.pick(5)];
+        let base = if t.chance(1, 2) { words[t.pick(words.len())].clone() } else { String::new() };
+        let v = ["a", "i", "u"][t.pick(3)];
+        let mk = |x: &str| if base.is_empty() || base.contains(['*', '%', ':', ';']) { format!("{x}{v}") } else { format!("{base}.{x}{v}") };
+        let (w1, w2) = if t.chance(1, 2) { (mk(ipa), mk(ame)) } else { (mk(ame), mk(ipa)) };
+        let at = t.pick(words.len() + 1);
+        words.insert(at, w1);
+        let at2 = if t.chance(1, 2) { at + 1 } else { t.pick(words.len() + 1) };
+        words.insert(at2, w2);
+    }
+    if t.chance(1, 6) { let w = words[t.pick(words.len())].clone(); let at = t.pick(words.len() + 1); words.insert(at, w); }
+}
+
 // ------------------------------------------------------------------------------------------------
 // Rule AST
 
@@ -320,6 +339,10 @@ pub struct RuleGen<'a> {
     pub vars_syll: Vec<u32>,  // variables bound to a syllable so far
     pub alphas: Vec<(char, PName)>, // alphas bound so far (letter, what it was bound on)
     pub uses: std::collections::BTreeSet<&'static str>,
+    /// which of `segs` open a syllable (empty if unknown)
+    pub starts: Vec<bool>,
+    /// the segment the next segment-matching element is written for (consecutive input elements follow consecutive segments of the word)
+    forced: std::cell::Cell<Option<usize>>,
     _p: std::marker::PhantomData<&'a ()>,
 }
 
@@ -328,10 +351,12 @@ pub enum Where { Input, Output, Context }
 
 impl<'a> RuleGen<'a> {
     pub fn new(prof: RuleProfile, word_segs: Vec<(String, MSeg)>) -> Self {
-        RuleGen { prof, segs: word_segs, next_var: 1, vars_seg: vec![], vars_syll: vec![], alphas: vec![], uses: Default::default(), _p: Default::default() }
+        let starts = LAST_STARTS.with(|l| { let l = l.borrow(); if l.len() == word_segs.len() { l.clone() } else { vec![] } });
+        RuleGen { prof, segs: word_segs, next_var: 1, vars_seg: vec![], vars_syll: vec![], alphas: vec![], uses: Default::default(), starts, forced: Default::default(), _p: Default::default() }
     }
 
     fn target(&self, t: &mut Tape) -> Option<(String, MSeg)> {
+        if let Some(i) = self.forced.take() { if i < self.segs.len() && t.chance(9, 10) { return Some(self.segs[i].clone()) } }
         if !self.segs.is_empty() && t.chance(self.prof.directed, 100) { Some(self.segs[t.pick(self.segs.len())].clone()) } else { None }
     }
 
@@ -543,7 +568,7 @@ impl<'a> RuleGen<'a> {
                 let k = 2 + t.pick(2);
                 let mut es = vec![]; for _ in 0..k { let e = self.env(t, false); es.push(e); }
                 items.push(EnvItem::Set(es));
-            } else { let e = self.env(t, false); items.push(EnvItem::One(e)); }
+            } else { let e = self.env(t, !insertion); items.push(EnvItem::One(e)); } // a bare `_` is a legal environment (not generated for insertions: listed hang family)
         }
         EnvSpec::List(items)
     }
@@ -570,7 +595,7 @@ impl<'a> RuleGen<'a> {
         }
         // occasionally shorter or longer than the input
         if self.prof.uneven && out.len() > 1 && t.chance(1, 8) { out.pop(); }
-        if self.prof.uneven && t.chance(1, 8) { let x = if t.chance(1, 4) { El::SBound } else { let text = pick_seg(t, 5).text.clone(); El::Ipa { text, params: None } }; out.push(x); }
+        if self.prof.uneven && t.chance(1, 8) { let x = match t.weighted(&[2, if self.prof.syll { 1 } else { 0 }, 5]) { 0 => El::SBound, 1 => self.syll_el(t, Where::Output), _ => { let text = pick_seg(t, 5).text.clone(); El::Ipa { text, params: None } } }; out.push(x); }
         if out.is_empty() { let x = self.seg_el(t, Where::Output); out.push(x); }
         if !self.prof.out_length_multi && input.len() > 1 {
             let strip = |p: &mut Params| p.args.retain(|(_, n)| !n.is_length());
@@ -608,6 +633,26 @@ impl<'a> RuleGen<'a> {
         let mut gen_input = |g: &mut Self, t: &mut Tape, min: usize| -> Vec<El> {
             let n = (1 + t.weighted(&[6, 3, 1])).max(min);
             let mut v = vec![];
+            // half of the multi-element inputs follow consecutive segments (and syllable boundaries) of the word, so that they can match as a whole
+            if n >= 2 && !g.segs.is_empty() && t.chance(1, 2) {
+                let mut idx = t.pick(g.segs.len());
+                let bound = g.prof.syll && g.prof.input_bound && !g.starts.is_empty();
+                while v.len() < n {
+                    if idx >= g.segs.len() { if bound && t.chance(1, 2) { v.push(El::SBound); } break }
+                    if bound && g.starts[idx] && t.chance(1, 3) { v.push(El::SBound); if v.len() >= n { break } }
+                    g.forced.set(Some(idx));
+                    let e = g.input_el(t);
+                    g.forced.set(None);
+                    match &e {
+                        El::Syll { .. } | El::Struct { .. } => { idx += 1; while idx < g.segs.len() && !g.starts.is_empty() && !g.starts[idx] { idx += 1; } }
+                        El::SBound => {}
+                        _ => idx += 1,
+                    }
+                    v.push(e);
+                }
+                if v.len() >= min.max(1) { return v }
+                v.clear();
+            }
             for i in 0..n {
                 let e = g.input_el(t);
                 v.push(e);
@@ -646,9 +691,16 @@ impl<'a> RuleGen<'a> {
 }
 
 /// Convenience: parse a generated word with asca (guarded) and return (text, structural word, flattened (grapheme-ish, value) list)
+thread_local! { static LAST_STARTS: std::cell::RefCell<Vec<bool>> = const { std::cell::RefCell::new(Vec::new()) }; }
+
+/// the word's segments that have a plain grapheme, flattened; remembers (for the next `RuleGen::new` with exactly this list) which of them open a syllable
 pub fn word_segs(w: &asca::verif::Word) -> Vec<(String, MSeg)> {
     let t = tables();
-    MWord::from_asca(w).flat().into_iter().filter_map(|s| t.by_value.get(&s).map(|g| (g.clone(), s))).collect()
+    let mw = MWord::from_asca(w);
+    let mut out = vec![]; let mut starts = vec![];
+    for sy in &mw.sylls { let mut first = true; for s in &sy.segs { if let Some(g) = t.by_value.get(s) { out.push((g.clone(), *s)); starts.push(first); first = false; } } }
+    LAST_STARTS.with(|l| *l.borrow_mut() = starts);
+    out
 }
 
 pub fn rule_kind(r: &Rule) -> &'static str {
@@ -680,13 +732,23 @@ pub fn gen_romanisers(t: &mut Tape, segs: &[(String, MSeg)]) -> (Vec<String>, bo
         let k = 1 + t.weighted(&[5, 3, 2]);
         let mut ins = vec![]; let mut outs = vec![];
         for _ in 0..k {
-            let (inp, is_matrix) = match t.weighted(&[6, 2, 2, 1]) {
-                0 => { let g = if !segs.is_empty() && t.chance(4, 5) { segs[t.pick(segs.len())].0.clone() } else { pick_seg(t, 10).text.clone() };
+            let start = if segs.is_empty() { 0 } else { t.pick(segs.len()) };
+            let (mut inp, mut is_matrix) = match t.weighted(&[6, 2, 2, 1]) {
+                0 => { let g = if !segs.is_empty() && t.chance(4, 5) { segs[start].0.clone() } else { pick_seg(t, 10).text.clone() };
                        (if t.chance(1, 3) { format!("{g}:{}", alias_params(t, true)) } else { g }, false) }
                 1 => { let g = GROUPS[t.pick(GROUPS.len())]; (if t.chance(1, 2) { format!("{g}:{}", alias_params(t, true)) } else { g.to_string() }, true) }
                 2 => (alias_params(t, false), true),
                 _ => ("$".to_string(), false),
             };
+            // sequences of 2-3 elements (`kV`, `xan:[tone:51]`, `n[+nasal]`), following the word's segments across its syllable ends
+            if inp != "$" && t.chance(1, 4) {
+                for j in 1..=(1 + t.weighted(&[3, 1])) {
+                    let g = if start + j < segs.len() && t.chance(4, 5) { segs[start + j].0.clone() } else { pick_seg(t, 10).text.clone() };
+                    let el = match t.weighted(&[4, 2, 2, 2]) { 0 => g, 1 => format!("{g}:{}", alias_params(t, true)), 2 => { let gr = GROUPS[t.pick(GROUPS.len())]; if t.chance(1, 3) { format!("{gr}:{}", alias_params(t, true)) } else { gr.to_string() } }, _ => alias_params(t, false) };
+                    inp.push_str(&el);
+                }
+                is_matrix = false;
+            }
             let out = if inp == "$" { if t.chance(2, 3) { "*".to_string() } else { FRESH[fresh_i % FRESH.len()].to_string() } }
                       else { match t.weighted(&[6, if is_matrix { 5 } else { 2 }, 1]) { 0 => FRESH[fresh_i % FRESH.len()].to_string(), 1 => { plus = true; format!("+{}", FRESH[fresh_i % FRESH.len()]) }, _ => "*".to_string() } };
             fresh_i += 1;
